@@ -147,6 +147,93 @@ Theorem C16_register_once : forall s addr seed handle i s',
 Proof. exact register_once. Qed.
 Print Assumptions C16_register_once.
 
+(* ---------------- wave 2 ---------------- *)
+
+(* temporary_once at SessionManager.resolve_cap level, over op sequences: after ANY run in which
+   prefix-related grants agree, a non-asset TEMPORARY cap granted once resolves on its first lookup to its
+   name, type, region and session; that lookup removes exactly this grant from exactly this region (every
+   other region is untouched, every other by-name list of the region is unchanged); the second lookup of the
+   same URL resolves to nothing and changes nothing *)
+Theorem C16_temporary_once : forall fresh wrap ops si ri n u sfx,
+  let m := run fresh wrap ops init_manager in
+  unambiguous (m_sessions m) ->
+  site (m_sessions m) si ri (n, (TEMPORARY, u)) ->
+  is_asset_server_cap_name n = false ->
+  (forall r, get_region m si ri = Some r -> count_occ tu_dec (md_getall n (r_caps r)) (TEMPORARY, u) = 1) ->
+  let m1 := fst (step fresh wrap m (OResolve (u ++ sfx))) in
+  snd (step fresh wrap m (OResolve (u ++ sfx))) = OCap (site_cd si ri (n, (TEMPORARY, u))) /\
+  step fresh wrap m1 (OResolve (u ++ sfx)) = (m1, OCap empty_cd) /\
+  (forall si' ri', (si', ri') <> (si, ri) -> get_region m1 si' ri' = get_region m si' ri') /\
+  (exists r r', get_region m si ri = Some r /\ get_region m1 si ri = Some r' /\
+     forall n', md_getall n' (r_caps r') =
+                if str_eqb n n' then remove_first tu_eqb (TEMPORARY, u) (md_getall n (r_caps r))
+                else md_getall n' (r_caps r)).
+Proof. exact temporary_once. Qed.
+Print Assumptions C16_temporary_once.
+
+(* seed_response, wrapped-asset clause: a wrappable cap present in the simulator's body (and not also a requested
+   proxy cap) is replaced by wrap(name, current Seed URL, current URL of the cap), and that URL is registered
+   as name+"ProxyWrapper" of type WRAPPER *)
+Theorem C16_seed_response_wraps : forall wrap worder needed r body p' r' k,
+  wrapper_names_disjoint worder ->
+  seed_response wrap worder needed r body = (Some p', r') ->
+  In k worder -> dict_mem k body = true -> ~ In k needed ->
+  exists t u ts seed,
+    md_get k (r_caps (update_caps r body)) = Some (t, u) /\
+    md_get c_Seed (r_caps (update_caps r body)) = Some (ts, seed) /\
+    dict_get k p' = Some (VStr (wrap k seed u)) /\
+    In ((k ++ c_ProxyWrapper)%list, (WRAPPER, wrap k seed u)) (r_caps r').
+Proof. exact seed_response_wraps. Qed.
+Print Assumptions C16_seed_response_wraps.
+
+(* ... for a body with distinct keys the wrapped URL is the one the simulator just sent *)
+Theorem C16_seed_response_wraps_sent : forall wrap worder needed r body p' r' k u0,
+  wrapper_names_disjoint worder -> NoDup (map fst body) ->
+  seed_response wrap worder needed r body = (Some p', r') ->
+  In k worder -> In (k, VStr u0) body -> prefix c_http u0 = true -> ~ In k needed ->
+  exists ts seed,
+    md_get c_Seed (r_caps (update_caps r body)) = Some (ts, seed) /\
+    dict_get k p' = Some (VStr (wrap k seed u0)) /\
+    In ((k ++ c_ProxyWrapper)%list, (WRAPPER, wrap k seed u0)) (r_caps r').
+Proof. exact seed_response_wraps_sent. Qed.
+Print Assumptions C16_seed_response_wraps_sent.
+
+(* with the wrapper URL built as the code does - urlunsplit(http, host(name, sha256(seed id)), rest of the URL) -
+   and sha256/lower/urlsplit as oracles assumed collision-free resp. netloc-faithful, the wrapper URLs handed to
+   viewers separate cap names and regions (seed ids) *)
+Theorem C16_wrapper_urls_distinct : forall host unsplit seed_id,
+  (forall n i n' i', host n i = host n' i' -> n = n' /\ i = i') ->
+  (forall h u h' u', unsplit h u = unsplit h' u' -> h = h') ->
+  forall worder needed1 needed2 r1 r2 body1 body2 p1 p2 r1' r2' k1 k2 w1 w2 t1 seed1 t2 seed2,
+  wrapper_names_disjoint worder ->
+  seed_response (wrap_c host unsplit seed_id) worder needed1 r1 body1 = (Some p1, r1') ->
+  seed_response (wrap_c host unsplit seed_id) worder needed2 r2 body2 = (Some p2, r2') ->
+  In k1 worder -> dict_mem k1 body1 = true -> ~ In k1 needed1 ->
+  In k2 worder -> dict_mem k2 body2 = true -> ~ In k2 needed2 ->
+  md_get c_Seed (r_caps (update_caps r1 body1)) = Some (t1, seed1) ->
+  md_get c_Seed (r_caps (update_caps r2 body2)) = Some (t2, seed2) ->
+  dict_get k1 p1 = Some (VStr w1) -> dict_get k2 p2 = Some (VStr w2) ->
+  k1 <> k2 \/ seed_id seed1 <> seed_id seed2 -> w1 <> w2.
+Proof. exact wrapper_urls_distinct. Qed.
+Print Assumptions C16_wrapper_urls_distinct.
+
+(* seed_request for ANY request list, duplicates included (the code is well defined there: list.remove drops
+   one occurrence per PROXY_ONLY item): of every name exactly min(#occurrences, #PROXY_ONLY items of that name)
+   copies are removed upstream *)
+Theorem C16_seed_request_counts : forall caps req n,
+  count_occ str_dec (fst (seed_request caps req)) n = count_occ str_dec req n - pcount caps n.
+Proof. exact seed_request_counts. Qed.
+Print Assumptions C16_seed_request_counts.
+
+(* FULL STATEMENT for duplicates (false of the code): forall caps req n, proxy_name caps n = true ->
+   ~ In n (fst (seed_request caps req)).  A viewer listing a proxy-only name twice gets one copy through. *)
+Theorem C16_seed_request_dup_refuted : exists caps req n,
+  proxy_name caps n = true /\ In n (fst (seed_request caps req)).
+Proof.
+  exists [(s "P", (PROXY_ONLY, s "u"))], [s "A"; s "P"; s "P"], (s "P"). split; vm_compute; auto.
+Qed.
+Print Assumptions C16_seed_request_dup_refuted.
+
 (* ---- non-vacuity ---- *)
 Definition ex_ops : list op :=
   [OCreateSession 1 [] (Some 11%N) (Some (s "http://s/a")) (Some 5%N);
@@ -181,3 +268,51 @@ Example C16_ex_proxy_twice :
   let '(u2, r2, c2) := register_proxy_cap ex_fresh r1 (s "P") c1 in
   u1 = u2 /\ c1 = 1 /\ c2 = 1.
 Proof. vm_compute. repeat split. Qed.
+
+(* wave 2 non-vacuity: the real wrappable set satisfies wrapper_names_disjoint ... *)
+Example C16_ex_wrapper_names :
+  wrapper_names_disjoint [s "ViewerAsset"; s "GetTexture"; s "GetMesh2"; s "GetMesh"].
+Proof.
+  intros a Ha b Hb. cbn in Ha.
+  destruct Ha as [<-|[<-|[<-|[<-|[]]]]]; (destruct Hb as [Hb|Hb]; [cbn in Hb; destruct Hb as [<-|[<-|[<-|[<-|[]]]]]|subst b]);
+    vm_compute; discriminate.
+Qed.
+
+(* ... the oracle hypotheses of C16_wrapper_urls_distinct are satisfiable (a length-prefixed host, netloc-only unsplit) ... *)
+Definition ex_host (n i : str) : str := repeat "1"%char (length n) ++ "0"%char :: n ++ i.
+Definition ex_unsplit (h u : str) : str := h.
+
+Lemma ex_unary : forall a b (x y : str),
+  repeat "1"%char a ++ "0"%char :: x = repeat "1"%char b ++ "0"%char :: y -> a = b /\ x = y.
+Proof.
+  induction a as [|a IH]; destruct b as [|b]; cbn; intros x y H; try discriminate.
+  - inversion H. auto.
+  - inversion H as [H1]. apply IH in H1. destruct H1; subst; auto.
+Qed.
+
+Lemma ex_app_len : forall (n n' i i' : str), length n = length n' -> n ++ i = n' ++ i' -> n = n' /\ i = i'.
+Proof.
+  induction n as [|c n IH]; destruct n' as [|c' n']; cbn; intros i i' Hl H; try discriminate; auto.
+  inversion H; subst. inversion Hl as [Hl']. destruct (IH _ _ _ Hl' H2); subst; auto.
+Qed.
+
+Example C16_ex_oracles :
+  (forall n i n' i', ex_host n i = ex_host n' i' -> n = n' /\ i = i') /\
+  (forall h u h' u', ex_unsplit h u = ex_unsplit h' u' -> h = h').
+Proof.
+  split; [|auto]. intros n i n' i' H. unfold ex_host in H. apply ex_unary in H as [Hl H]. exact (ex_app_len _ _ _ _ Hl H).
+Qed.
+
+(* ... and the hypotheses of C16_temporary_once hold on the run of C16_ex_resolve (checked there by computation):
+   the grant (T, TEMPORARY, http://h/2) is unique, non-asset, and no other granted URL is prefix-related to it *)
+Example C16_ex_temporary_hyps :
+  let m := run ex_fresh ex_wrap ex_ops init_manager in
+  site (m_sessions m) 0 0 (s "T", (TEMPORARY, s "http://h/2")) /\
+  is_asset_server_cap_name (s "T") = false /\
+  (forall r, get_region m 0 0 = Some r -> count_occ tu_dec (md_getall (s "T") (r_caps r)) (TEMPORARY, s "http://h/2") = 1).
+Proof.
+  split; [|split].
+  - eexists; eexists. split; [reflexivity|]. split; [reflexivity|]. vm_compute. auto 10.
+  - reflexivity.
+  - intros r H. vm_compute in H. inversion H; subst. vm_compute. reflexivity.
+Qed.
